@@ -59,7 +59,7 @@ CLAIMED = {
    tech=P + "; panic sites are explicit outcomes", ref="§6 C09, notes/C09.md"),
  "C10": dict(
    text="Theorems: C10_amap_perm (BTreeMap built from a permutation of entries with distinct keys is the same map), C10_locale_keys_perm (decoding an object is invariant under permutation of its entries — no distinctness hypothesis since the fix of F13: C10_duplicate_key_rejected, C10_locale_keys_perm_fails), "
-        "C10_duplicate_key_order_dependent (the pre-fix behaviour, kept as the regression witness); with C06_order_independent for the visiting order of foreign keys. The model is a pure function, which gives run-to-run determinism of what it covers. Correspondence: each project loaded twice, with permuted entries, "
+        "C10_duplicate_key_order_dependent (the pre-fix behaviour, kept as the regression witness); with C06_order_independent for the visiting order of foreign keys; whole files and pipeline (Theorems/C10Pipeline.lean): C10_decode_perm, C10_pipeline_perm(_full/_eq_of_ok/_after_decoding/_lookup) for entries permuted in any object at any depth (equal runs, or two decoding failures that are candidates of both files), C10_pipeline_deterministic. The model is a pure function, which gives run-to-run determinism of what it covers. Correspondence: each project loaded twice, with permuted entries, "
         "and written as JSON / JSON5 / YAML (three feature builds): identical keys, diagnostics and rendered text; generated code of two fresh generator processes identical.",
    note=BASE + "YAML/JSON5 front-ends are oracles compared through the implementation's dumps. Keys equal after trimming (F13) are rejected since fix b1a986a.", tech=P, ref="§6 C10, notes/C10.md"),
  "C11": dict(
